@@ -30,12 +30,44 @@ type c03Case struct {
 	DialAndSend bool                       `json:"dial_and_send"`
 }
 
-// normDATA is the transport normalisation inherent to DATA: a final CRLF is added if missing.
+// normDATA models what transmitting content through DATA does to it, byte for byte the way
+// net/textproto's dot-writer works (dot-stuffing aside, which the server undoes): a LF that does not
+// directly follow a CR gets a CR in front of it, and at the end the content is completed to end in
+// CRLF ("\r\n" appended after ordinary data, "\n" after a lone CR, nothing after a line end).
 func normDATA(b []byte) []byte {
-	if len(b) == 0 || bytes.HasSuffix(b, []byte("\r\n")) {
-		return b
+	const (
+		beginLine = iota
+		data
+		cr
+	)
+	state := beginLine
+	out := make([]byte, 0, len(b)+2)
+	for _, c := range b {
+		switch state {
+		case beginLine, data:
+			state = data
+			if c == '\r' {
+				state = cr
+			}
+			if c == '\n' {
+				out = append(out, '\r')
+				state = beginLine
+			}
+		case cr:
+			state = data
+			if c == '\n' {
+				state = beginLine
+			}
+		}
+		out = append(out, c)
 	}
-	return append(append([]byte{}, b...), '\r', '\n')
+	switch state {
+	case data:
+		out = append(out, '\r', '\n')
+	case cr:
+		out = append(out, '\n')
+	}
+	return out
 }
 
 func specHasFault(s *gen.MsgSpec) bool {
